@@ -18,7 +18,8 @@ CHECKS = {
               "insertion order and history: entry put/get/add exact and symmetric, AddTo accumulation insertion-order independent, "
               "SetValue / Periodicity / AntiPeriodicity yield exactly the constrained system (refinement of the linked-row code to "
               "abstract matrices + abstract linear-algebra equivalences), MultA (scatter over the linked upper-triangle rows) = product with the "
-              "full symmetric matrix read through Get for every stored form Create/Put/AddTo can reach, hence one pass of the model's "
+              "full symmetric matrix read through Get on every system any history of the matrix API (Put, AddTo, rhs writes, SetValue, Periodicity, "
+              "AntiPeriodicity, real and complex) can build - the stored form is proved an invariant of the API -, hence one pass of the model's "
               "own PCGSolve / PBCGSolve body keeps recurrence residual = true residual. The model is tied "
               "to the real CBigLinProb on every run by an in-process op-sequence harness (bit comparison with the Float instance, "
               "1e-11 comparison with the exact Rat instance) and the implementation's solve results are checked against an "
